@@ -201,12 +201,20 @@ class MeiParser(object):
         else:  # the informatio is encoded in a parent scoredef
             found_ancestor_with_metrical_info = False
             for anc in staffdef_el.iterancestors(tag=self._ns_name("scoreDef")):
-                if anc.get("meter.count") is not None:
+                if (
+                    anc.get("meter.count") is not None
+                    or anc.find(self._ns_name("meterSig")) is not None
+                ):
                     found_ancestor_with_metrical_info = True
                     break
             if found_ancestor_with_metrical_info:
-                numerator = int(anc.attrib["meter.count"])
-                denominator = int(anc.attrib["meter.unit"])
+                anc_metersig_el = anc.find(self._ns_name("meterSig"))
+                if anc_metersig_el is not None:  # meterSig child of the scoreDef
+                    numerator = int(anc_metersig_el.attrib["count"])
+                    denominator = int(anc_metersig_el.attrib["unit"])
+                else:
+                    numerator = int(anc.attrib["meter.count"])
+                    denominator = int(anc.attrib["meter.unit"])
             else:
                 raise Exception(
                     f"The time signature is not encoded in {staffdef_el.get(self._ns_name('id'))} or in any ancestor scoreDef"
@@ -243,14 +251,22 @@ class MeiParser(object):
         else:  # the information is encoded in a parent scoredef
             found_ancestor_with_key_info = False
             for anc in staffdef_el.iterancestors(tag=self._ns_name("scoreDef")):
-                if anc.get("key.sig") is not None:
+                if (
+                    anc.get("key.sig") is not None
+                    or anc.find(self._ns_name("keySig")) is not None
+                ):
                     found_ancestor_with_key_info = True
                     break
             if found_ancestor_with_key_info:
-                sig = anc.attrib["key.sig"]
+                anc_keysig_el = anc.find(self._ns_name("keySig"))
+                if anc_keysig_el is not None:  # keySig child of the scoreDef
+                    sig = anc_keysig_el.attrib["sig"]
+                    mode = anc_keysig_el.get("mode")
+                else:
+                    sig = anc.attrib["key.sig"]
+                    mode = anc.get("key.mode")
                 # now extract partitura keysig parameters
                 fifths = self._mei_sig_to_fifths(sig)
-                mode = anc.get("key.mode")
             else:
                 warnings.warn(
                     f"The key signature is not encoded in {staffdef_el.get(self._ns_name('id'))} or in any ancestor scoreDef."
